@@ -1,4 +1,5 @@
 import WP.Model.Hist
+import WP.Model.Position
 /-
   Token-2022 transfer-fee arithmetic (spl-token-2022 `TransferFee::{calculate_fee,
   calculate_pre_fee_amount, calculate_inverse_fee}`) and the program's wrappers
@@ -186,21 +187,27 @@ def xhopLine (cur snap : HistState) (t : List String) : Option String :=
     let cap := U64_MAX / 4
     let run (thr : Nat) := twoHop s1.pool s1.ticks s1.af arr1 s2.pool s2.ticks s2.af arr2 amount thr ein d1 d2 lim1 lim2 now fI none fO SWAP_FUEL
     -- the harness derives the threshold from the two SINGLE swaps (no intermediate-match requirement)
+    -- (they are executed as INSTRUCTIONS there: a single swap also fails when the trader's balance `cap`
+    --  or the capped vault cannot pay — the token program's InsufficientFunds)
+    let v1cap := min (if d1 then s1.vaultB else s1.vaultA) cap
+    let v2cap := min (if d2 then s2.vaultB else s2.vaultA) cap
     let singles : R (Nat × Nat) :=
       if ein then
         match swapV2 s1.pool s1.ticks arr1 amount 0 lim1 true d1 now s1.af fI none SWAP_FUEL with
         | .error e => .error e
         | .ok r1 =>
+          if r1.userIn > cap || r1.poolOut > v1cap then .error .InsufficientFunds else
           match swapV2 s2.pool s2.ticks arr2 r1.userOut 0 lim2 true d2 now s2.af none fO SWAP_FUEL with
           | .error e => .error e
-          | .ok r2 => .ok (r1.userIn, r2.userOut)
+          | .ok r2 => if r2.poolOut > v2cap then .error .InsufficientFunds else .ok (r1.userIn, r2.userOut)
       else
         match swapV2 s2.pool s2.ticks arr2 amount U64_MAX lim2 false d2 now s2.af none fO SWAP_FUEL with
         | .error e => .error e
         | .ok r2 =>
+          if r2.userIn > cap || r2.poolOut > v2cap then .error .InsufficientFunds else
           match swapV2 s1.pool s1.ticks arr1 r2.userIn U64_MAX lim1 false d1 now s1.af fI none SWAP_FUEL with
           | .error e => .error e
-          | .ok r1 => .ok (r1.userIn, r2.userOut)
+          | .ok r1 => if r1.userIn > cap || r1.poolOut > v1cap then .error .InsufficientFunds else .ok (r1.userIn, r2.userOut)
     let thr : Nat := match singles, thrMode with
       | .ok r, 1 => if ein then r.2 else r.1
       | .ok r, 2 => if ein then min (r.2 + 1) U64_MAX else r.1 - 1
@@ -262,6 +269,46 @@ def xliqLine (s : HistState) (t : List String) : Option String :=
             else if inc && (ua > cap || ub > cap) then pure "err Code(1)"
             else if !inc && (da > min s.vaultA cap || db > min s.vaultB cap) then pure "err Code(1)"
             else pure s!"ok {ua} {ub} {da} {db}"
+  | _ => none
+
+
+/-- `H xpos kind ver id authMode a1 a2 feeA(3) feeB(3)`: a position instruction of the Anchor path on the
+    current state (read-only): update_fees_and_rewards, collect_fees (v1 / v2), close_position,
+    reset_position_range.  authMode 0 owner, 1 stranger, 2 owner not signing, 3 one-token delegate,
+    4 delegate with allowance 0. -/
+def xposLine (s : HistState) (t : List String) : Option String :=
+  match t with
+  | [kind, ver, id, auth, a1, a2, bA, mA, _fA, bB, mB, _fB] => do
+    let ver ← ver.toNat?
+    let id ← id.toNat?
+    let auth ← auth.toNat?
+    let a1 ← a1.toInt?
+    let a2 ← a2.toInt?
+    let fA ← parseTFee bA mA
+    let fB ← parseTFee bB mB
+    let (fA, fB) := if kind == "cf" && ver = 2 then (fA, fB) else (none, none)
+    let auth := if kind == "upd" then 0 else if kind == "close" && auth ≥ 3 then 0 else auth
+    let cap := U64_MAX / 4
+    match posGet s.positions id with
+    | none => pure "err NoSuchPosition"
+    | some pos =>
+      if auth = 2 then pure "err AccountNotSigner"
+      else if auth = 1 then pure "err MissingOrInvalidDelegate"
+      else if auth = 4 then pure "err InvalidPositionTokenAmount"
+      else if kind == "upd" then
+        match histStep s (.upd id) with
+        | .error e => pure ("err " ++ e.name)
+        | .ok _ => pure "ok"
+      else if kind == "cf" then
+        if pos.owedA > min s.vaultA cap || pos.owedB > min s.vaultB cap then pure "err Code(1)"
+        else pure s!"ok {(excludedAmount fA pos.owedA).1} {(excludedAmount fB pos.owedB).1} {pos.owedA} {pos.owedB}"
+      else if kind == "close" then
+        if isPositionEmpty pos false then pure "ok" else pure "err ClosePositionNotEmpty"
+      else if kind == "reset" then
+        match resetPositionRange s.pool.ts pos a1 a2 false with
+        | .error e => pure ("err " ++ e.name)
+        | .ok _ => pure "ok"
+      else none
   | _ => none
 
 end WP
